@@ -53,6 +53,8 @@ def run(chk, repo):
     r2(chk, repo)
     exit_codes(chk, repo)
     helper_sites(chk, repo)
+    helper_brackets(chk, repo)
+    prog_name(chk, repo)
     r6(chk, repo)
     bracket_writes(chk, repo)
     bracket_yields(chk, repo)
@@ -172,6 +174,143 @@ def r2(chk, repo):
         chk.ob("R05.2", E + "FuncId", f"{n} == {v}", n in mem and
                mem[n].value == v, fid.attr_stmts.get(n, fid.node),
                "helper numbers from the kernel's bpf.h")
+
+
+def helper_brackets(chk, repo):
+    """R05.2b: a helper call returns in r0 and clobbers r1-r5.  Every call
+    site is bracketed by save_registers(...) over all of r0..r5 except the
+    register the enclosing calculate() computes into (which receives the
+    result) - or, where the result is left in r0 for the caller, over
+    r1..r5.  The register list is evaluated for every destination."""
+    n = 0
+    for m in repo.production_modules():
+        for c in ast.walk(m.tree):
+            if not (isinstance(c, ast.Call) and isinstance(
+                    c.func, ast.Attribute) and c.func.attr == "call"
+                    and len(c.args) == 1 and (dotted(c.args[0]) or ""
+                                              ).startswith("FuncId.")):
+                continue
+            sym = func_qual(repo, c)
+            fn = repo.enclosing_function(c)
+            lists = []
+            for par in parents(c):
+                if isinstance(par, (ast.With, ast.AsyncWith)):
+                    for it in par.items:
+                        b = match("$e.save_registers($l)", it.context_expr)
+                        if b is not None:
+                            lists.append(b["l"])
+                if par is fn:
+                    break
+            if c.args[0].attr == "tail_call":
+                continue        # does not return
+            n += 1
+            has_dst = "dst" in param_names(fn) if fn is not None else False
+            bad = []
+            for dst in (range(0, 10) if has_dst else (None,)):
+                saved = set()
+                for l in lists:
+                    try:
+                        saved |= set(Evaluator(repo, c._module).eval(
+                            l, {"dst": dst} if has_dst else {}))
+                    except (Unknown, Raised, TypeError) as e:
+                        raise AnalysisError(f"{sym}: register list "
+                                            f"`{unparse(l)}`: {e}")
+                want = set(range(6)) - {dst} if has_dst else {1, 2, 3, 4, 5}
+                if not want <= saved:
+                    bad.append(f"dst={dst}: r{sorted(want - saved)} not "
+                               f"saved")
+            chk.ob("R05.2", sym, f"helper {c.args[0].attr}: every "
+                   f"caller-saved register that is not the result is "
+                   f"rescued around the call", not bad, c,
+                   "; ".join(bad[:3]) + ": a live value there (r0 holds a "
+                   "looked-up pointer, say) is a scalar after the call, and "
+                   "the verifier rejects its use" if bad else
+                   "save_registers covers r0-r5 except the destination")
+    chk.floor("R05.2", "helper call sites bracketed", n, 6)
+
+
+def prog_name(chk, repo):
+    """R05.10: the program name handed to BPF_PROG_LOAD fits its field
+    with the terminating NUL the kernel insists on (EINVAL otherwise - for
+    a program that assembled without error).  By abstract execution of
+    bpf.prog_load (which names does it pass on, into a field of which
+    size) and of EBPF.load (which name does it make of a class name)."""
+    import re as _re
+    import string as _string
+    chk.doc("R05.10", "the program name fits the kernel's name field")
+    B_ = "ebpfcat.bpf."
+    pl = repo.func(B_ + "prog_load")
+    chk.analysed(B_ + "prog_load")
+    ptype = Obj(None, {"value": 6})
+    field = None
+    bad = []
+    for n in range(0, 24):
+        calls = []
+
+        def bpf_(cmd, fmt, *args, _c=calls):
+            _c.append((cmd, fmt, args))
+            return (7, None)
+        ev = Evaluator(repo, pl._module, funcs={
+            "bpf": bpf_, "addrof": lambda x: 0x1000,
+            "create_string_buffer": lambda k: Obj(None, {"value": b""})})
+        name = ("Ab-_9" * 6)[:n]
+        try:
+            ev.call_function(pl, [ptype, b"\0" * 16, "GPL"], {"name": name})
+        except Raised:
+            if calls:
+                bad.append(f"a name of {n} characters fails after the "
+                           f"syscall")
+            continue
+        except Unknown as e:
+            raise AnalysisError(f"{B_}prog_load: cannot be evaluated: {e}")
+        if len(calls) != 1 or calls[0][0] != 5:
+            bad.append(f"a name of {n} characters: syscalls {calls}")
+            continue
+        m_ = _re.search(r"(\d+)s", calls[0][1])
+        need(m_ is not None, f"{B_}prog_load: no name field in the format")
+        field = int(m_.group(1))
+        sent = [a for a in calls[0][2] if isinstance(a, (bytes, bytearray))
+                and a and bytes(a) != b"GPL"]
+        if n >= field:
+            bad.append(f"a name of {n} characters is passed into the "
+                       f"{field}-byte field: no room for the terminating "
+                       f"NUL, the kernel answers EINVAL")
+    chk.ob("R05.10", B_ + "prog_load", "a name is accepted only when it is "
+           "shorter than the name field", not bad and field is not None, pl,
+           "; ".join(bad[:2]) or f"names of 0..{(field or 1) - 1} characters "
+           f"are passed on, longer ones refused before the syscall")
+    ec = repo.cls(E + "EBPF")
+    ld = ec.methods.get("load")
+    need(ld is not None, "EBPF.load vanished")
+    chk.analysed(E + "EBPF.load")
+    bad = []
+    allowed = set(_string.ascii_letters + _string.digits + "-_")
+    for n in (1, 5, 14, 15, 16, 17, 31, 40):
+        got = []
+
+        def prog_load_(*a, name="", _g=got, **k):
+            _g.append(name)
+            return (9, None)
+        me = Obj(ec, {"name": ("Sync.Group+" * 5)[:n], "prog_type": ptype,
+                      "license": "GPL", "kern_version": 0,
+                      "assemble": ("hook", lambda: b"")})
+        ev = Evaluator(repo, ld._module, ec, funcs={"bpf": Obj(None, {
+            "allowed_chars": allowed, "prog_load": ("hook", prog_load_)})})
+        try:
+            ev.call_function(ld, [me], cls=ec)
+        except (Raised, Unknown):
+            pass        # the maps of the class are loaded next: not here
+        if len(got) != 1:
+            raise AnalysisError(f"{E}EBPF.load: prog_load not reached")
+        if field is not None and len(got[0]) >= field:
+            bad.append(f"a class name of {n} characters is passed on with "
+                       f"{len(got[0])}")
+        elif not set(got[0]) <= allowed:
+            bad.append(f"characters {sorted(set(got[0]) - allowed)} are "
+                       f"passed on")
+    chk.ob("R05.10", E + "EBPF.load", "the name made of the program's name "
+           "is shorter than the field and made of allowed characters",
+           not bad, ld, "; ".join(bad[:2]) or "names of 1..40 characters")
 
 
 def helper_sites(chk, repo):
